@@ -174,6 +174,11 @@ def uniform_workers(ctx, P, crate, fam, rule):
                     while t[0] in ("ref", "deref"):
                         t = T.strip(t[2] if t[0] == "ref" else t[1])
                     plain = t[0] == "param" and t[2] == fname
+                    # a field that is not a numeric limit (the worker's own clone of the filter, carried in the config struct): the
+                    # uniform-workers rule above judges it
+                    if not plain and any(w in (cb.local_ty((o.get("m") or o.get("c") or {}).get("l", 0)) or "") for w in ("FilterConfig", "Database", "Arc<")):
+                        m -= 1
+                        continue
                     ctx.check(plain, rule, "%s:worker-config:%s" % (fam, fname), "WorkerConfig.%s = parameter %s" % (fname, fname),
                               "WorkerConfig.%s is %s, not the configured `%s`: every worker runs with a different limit than the sequential analyzer "
                               "(e.g. a fraction of max_connections, so connections within the configured capacity evict each other)" % (fname, T.pp(t)[:80], fname), ctx.loc(cb, i))
@@ -300,12 +305,18 @@ def exit_conditions(ctx, P, fam, wl, wp, rule):
         from ..engine import tables as TB
         badr = []
         m = 0
-        for (rb, j, term, _c) in TB.return_sites(wp, P):
+        for (rb, j, term, rc_) in TB.return_sites(wp, P, True):
             tt = T.strip(term)
             m += 1
             if tt[0] == "const" and tt[1] is True:
                 continue
             if tt[0] == "call" and tt[1].endswith("::is_ok") and T.has_call(tt, "Sender::<T>::send"):
+                continue
+            # `match sender.send(r) { Ok(()) => true, Err(_) => false }`: `false` on the Err side of the send
+            if tt[0] == "const" and tt[1] is False and any(
+                    (c[0] == "variant" and T.has_call(c[1], "Sender::<T>::send") and ((c[2] == "Err") == c[3])) or
+                    (c[0] == "bool" and T.has_call(c[1], "Sender::<T>::send") and ((T.has_call(c[1], "::is_err") and c[2] is True) or (T.has_call(c[1], "::is_ok") and c[2] is False)))
+                    for c in list(rc_) + list(Q.canon_conds(P, T.dom_conds(wp, SP, rb)))):
                 continue
             badr.append((rb, T.pp(tt)[:80]))
         ctx.check(not badr, rule, fam + ":process_packet:keep-running", "process_packet answers `stop` only when the result channel is closed (%d return sites)" % m,
@@ -336,7 +347,8 @@ def filter_reaches_pipeline(ctx, P, crate, fam, rule):
         n += 1
         a = Q.call_args(wl, S, blk, t)
         src = a[fi]
-        okf = any(x[0] == "param" and "filter" in (x[2] or "") for x in T.walk(src))
+        okf = any(x[0] == "param" and "filter" in (x[2] or "") for x in T.walk(src)) or \
+            any(x[0] == "field" and isinstance(x[2], str) and "filter" in x[2] and any(y[0] == "param" for y in T.walk(x[1])) for x in T.walk(src))
         ctx.check(okf, rule, "%s:filter-argument@%d" % (fam, n), "process_packet(.., filter of this worker)",
                   "a call of process_packet in the worker loop passes %s as the filter: packets handled at that call site (e.g. the follow-up packets of a batch) "
                   "are analysed unfiltered" % T.pp(T.strip(src))[:60], ctx.loc(wl, blk))
